@@ -10,6 +10,7 @@ mod c10;
 mod eg;
 mod egx;
 mod egs;
+mod eg9;
 
 fn main() {
     common::install_panic_hook();
@@ -28,6 +29,7 @@ fn main() {
         "eg" => eg::main(&a),
         "egx" => egx::main(&a),
         "egs" => egs::main(&a),
+        "eg9" => eg9::main(&a),
         "features" => {
             println!("checks={} explanations={}", cfg!(feature = "checks"), cfg!(feature = "explanations"));
         }
